@@ -84,7 +84,51 @@ def type_ok(d, v):
         return isinstance(v, dict)
     if k == "struct":
         return isinstance(v, (Structure, dict))
+    if k in ("anyOf", "oneOf"):
+        return any(type_ok(x, v) for x in d["fields"])
+    if k == "allOf":
+        return all(type_ok(x, v) for x in d["fields"])
     return True
+
+
+def is_container_kind(d):
+    k = d["k"]
+    if k in ("anyOf", "oneOf", "allOf"):
+        return any(is_container_kind(x) for x in d["fields"])
+    return k not in SCALAR_KINDS
+
+
+def normalize_wrappers(d):
+    """make the option a multi-field wrapper takes for a container value unambiguous: scalar options plus at most
+    one container option, no Anything next to other options (generator post-processing, in place)"""
+    if isinstance(d, list):
+        for x in d:
+            normalize_wrappers(x)
+        return d
+    if not isinstance(d, dict):
+        return d
+    if d.get("k") in ("anyOf", "oneOf", "allOf"):
+        opts, seen_container = [], False
+        for x in d["fields"]:
+            if x["k"] in ("anything", "notF"):
+                continue
+            if is_container_kind(x):
+                if seen_container:
+                    continue
+                seen_container = True
+            opts.append(x)
+        opts = opts or [d["fields"][0]]
+        # `AnyOf.serialize` delegates to its last non-None option, `AllOf.serialize` to its first: put the container
+        # option there, so that a container value is always handed to the option that declares it
+        cont = [x for x in opts if is_container_kind(x)]
+        rest = [x for x in opts if not is_container_kind(x)]
+        d["fields"] = (cont + rest) if d["k"] == "allOf" else (rest + cont)
+    for v in d.values():
+        normalize_wrappers(v)
+    return d
+
+
+OUTPUT_FIELD_OPS = ("fieldSerialize", "fastSerialize")
 
 
 def _elems(v):
@@ -111,9 +155,9 @@ def _keys(v):
     return []
 
 
-def shape_for(d, v):
+def shape_for(d, v, op=None):
     """Shape (JSON) of declaration d for the concrete value v (extras, positional lengths and the matching
-    option of a multi-field wrapper depend on the value)"""
+    option of a multi-field wrapper depend on the value; `<wrapper>.serialize` delegates to a fixed option)"""
     k = d["k"]
     if k in SCALAR_KINDS:
         return {"s": scalar_cat(k)}
@@ -122,40 +166,48 @@ def shape_for(d, v):
     first = lambda: (_elems(v) or [None])[0]
     if k in ("seqAny", "seqOf"):
         kind = "deque" if d.get("seq") == "deque" else "array"
-        return {"c": kind, "item": "untyped" if k == "seqAny" else shape_for(d["item"], first())}
+        return {"c": kind, "item": "untyped" if k == "seqAny" else shape_for(d["item"], first(), op)}
     if k in ("setAny", "setOf"):
         return {"c": "immSet" if d.get("imm") else "set",
-                "item": "untyped" if k == "setAny" else shape_for(d["item"], first())}
+                "item": "untyped" if k == "setAny" else shape_for(d["item"], first(), op)}
     if k == "tupleOf":
-        return {"c": "tuple", "item": shape_for(d["item"], first())}
+        return {"c": "tuple", "item": shape_for(d["item"], first(), op)}
     if k in ("mapAny", "mapOf"):
-        return {"c": "map", "item": "untyped" if k == "mapAny" else shape_for(d["val"], first())}
+        return {"c": "map", "item": "untyped" if k == "mapAny" else shape_for(d["val"], first(), op)}
     if k in ("seqPos", "tuplePos"):
         kind = "tuplePos" if k == "tuplePos" else "dequePos" if d.get("seq") == "deque" else "arrayPos"
         vs = _elems(v) if not isinstance(v, dict) else []
-        fields = [[str(i), shape_for(x, vs[i] if i < len(vs) else None)] for i, x in enumerate(d["items"])]
+        fields = [[str(i), shape_for(x, vs[i] if i < len(vs) else None, op)] for i, x in enumerate(d["items"])]
         fields += [[str(j), "untyped"] for j in range(len(d["items"]), len(vs))]
         return {"k": kind, "fields": fields}
     if k == "struct":
-        return struct_shape(d, v, "inline" if d.get("inline") else "struct")
+        return struct_shape(d, v, "inline" if d.get("inline") else "struct", op=op)
     if k == "notF":
         return {"w": "notF", "inner": "untyped"}      # whatever a NotField lets through has no declared type
     if k in ("anyOf", "oneOf", "allOf"):
+        if op in OUTPUT_FIELD_OPS and k in ("anyOf", "allOf"):
+            # AnyOf.serialize hands the value to its LAST non-None option, AllOf.serialize to its FIRST option,
+            # whatever the value is; an option that does not fit the value falls back to Field.serialize (generic)
+            non_none = [x for x in d["fields"] if x["k"] != "noneF"] or d["fields"]
+            chosen = non_none[-1] if k == "anyOf" else d["fields"][0]
+            if not type_ok(chosen, v) or (AP.node_tag(v) is not None and not is_container_kind(chosen)):
+                return {"w": k, "inner": "untyped"}
+            return {"w": k, "inner": shape_for(chosen, v, op)}
         opts = [x for x in d["fields"] if type_ok(x, v)] or d["fields"]
-        return {"w": k, "inner": shape_for(opts[0], v)}
+        return {"w": k, "inner": shape_for(opts[0], v, op)}
     raise ValueError(f"shape_for: {k}")
 
 
-def struct_shape(d, v, kind, result=None):
+def struct_shape(d, v, kind, result=None, op=None):
     """`result` (optional): the structure the operation built from v — undeclared keys it dropped are no site"""
     names = [n for n, _ in d["fields"]]
     fields = []
     for n, fd in d["fields"]:
         sub = _lookup(v, n)
         if result is not None and fd["k"] == "struct" and isinstance(result.__dict__.get(n), Structure):
-            fields.append([n, struct_shape(fd, sub, "inline" if fd.get("inline") else "struct", result.__dict__[n])])
+            fields.append([n, struct_shape(fd, sub, "inline" if fd.get("inline") else "struct", result.__dict__[n], op)])
         else:
-            fields.append([n, shape_for(fd, sub)])
+            fields.append([n, shape_for(fd, sub, op)])
     kept = None if result is None else set(result.__dict__)
     fields += [[x, "untyped"] for x in _keys(v) if x not in names and (kept is None or x in kept)]
     return {"k": kind, "fields": fields}
@@ -431,7 +483,7 @@ def situation(case):
         return Situation([x], x, shape, call)
 
     if op == "fastSerialize":
-        shape = struct_shape(decl, x, "root")
+        shape = struct_shape(decl, x, "root", op=op)
 
         def call():
             create_serializer(cls)
@@ -443,7 +495,7 @@ def situation(case):
         name = case["field"]
         field = cls.get_all_fields_by_name()[name]
         internal = x.__dict__.get(name)
-        shape = shape_for(fdecl[name], internal)
+        shape = shape_for(fdecl[name], internal, op)
 
         def call():
             doc = field.serialize(getattr(x, name))
@@ -486,6 +538,9 @@ def run_impl(case):
     shared = sorted(index[i] for i, (p, o) in graph.items() if i in gk and AP.node_tag(o) in AP.MUTABLE_TAGS)
     res["shared"] = shared
     res["shared_paths"] = sorted(list(graph[id(order[a])][0]) for a in shared)
+    # immutable containers (tuples, frozensets) that are handed on as they are: only used to find the topmost
+    # aliased object when blaming a site
+    res["shared_all_paths"] = sorted(list(p) for i, (p, o) in graph.items() if i in gk)
 
     def make():
         s2 = situation(case)
@@ -571,7 +626,8 @@ def judge(case, impl, model):
                               f"changed the input document or mapping"))
                 continue
             # blame the topmost aliased object on the way to the poked one
-            known_paths = [list(q) for q in impl.get("shared_paths", [])] + [list(q) for q, _ in impl.get("poked", [])]
+            known_paths = [list(q) for q in impl.get("shared_all_paths", impl.get("shared_paths", []))] + \
+                          [list(q) for q, _ in impl.get("poked", [])]
             prefixes = [vis_path[:n] for n in range(len(vis_path) + 1) if vis_path[:n] in known_paths]
             blame_path = prefixes[0] if prefixes else vis_path
             site, chain = responsible_site(impl["shape"], blame_path, modes)
@@ -636,7 +692,35 @@ CONVERT_MAPPINGS = [
 ]
 
 
+def _norm_key(k):
+    if isinstance(k, bool) or (isinstance(k, (int, float)) and k in (0, 1)):
+        return str(bool(k))
+    if isinstance(k, dict) and "f" in k and k["f"][1] == 1 and k["f"][0] in (0, 1):
+        return str(bool(k["f"][0]))
+    return k if isinstance(k, str) else json.dumps(k, sort_keys=True, default=str)
+
+
+def colliding_keys(w):
+    """a wire value with two dict keys that typedpy's key fields (Boolean maps 'True' to True) or Python itself
+    (True == 1) merge: the heap abstraction keys cells by str(key), so such documents are not generated"""
+    if isinstance(w, dict):
+        if "m" in w:
+            ks = [_norm_key(k) for k, _ in w["m"]]
+            if len(set(ks)) != len(ks):
+                return True
+            return any(colliding_keys(v) or colliding_keys(k) for k, v in w["m"])
+        return any(colliding_keys(v) for v in w.values())
+    if isinstance(w, list):
+        return any(colliding_keys(v) for v in w)
+    return False
+
+
 def gen_cases(rng, tier, n_classes):
+    return [c for c in _gen_cases(rng, tier, n_classes)
+            if c["op"] == "convert" or not colliding_keys([c.get("kw"), c.get("value"), c.get("doc")])]
+
+
+def _gen_cases(rng, tier, n_classes):
     cases = []
     depth = 2 if tier == "quick" else 3
     for ci in range(n_classes):
@@ -647,6 +731,7 @@ def gen_cases(rng, tier, n_classes):
         cls = dg.class_decl(0, n_fields=rng.choice([1, 2, 3]))
         cls["name"] = f"A{ci}"
         cls.pop("ignoreNone", None)
+        normalize_wrappers(cls)
         C.fix_accepts(cls)
         kw = vg.valid_kw(cls)
         if kw is gen.NOVALUE:
@@ -712,7 +797,7 @@ def item_witness(cat):
         "coll": (ARR_INT, {"l": [1, 2]}, {"l": [1, 2]}),
         "struct": (INNER, inst, inner_doc),
         "inline": (dict(_cls("Inl", [["x", INT], ["l", ARR_INT]]), inline=True), inner_doc, inner_doc),
-        "wrap": ({"k": "anyOf", "fields": [ARR_INT, STR]}, {"l": [1, 2]}, {"l": [1, 2]}),
+        "wrap": ({"k": "anyOf", "fields": [STR, ARR_INT]}, {"l": [1, 2]}, {"l": [1, 2]}),
     }[cat]
 
 
@@ -765,7 +850,11 @@ def witness(kind, cat):
         d, v, doc = item_witness("any")
         return {"k": "notF", "fields": [STR]}, v, doc
     if kind in ("anyOf", "oneOf", "allOf"):
-        if cat in ("untyped", "none"):
+        if cat == "untyped":
+            # the option `<wrapper>.serialize` delegates to does not fit the value (output operations only)
+            return ({"k": kind, "fields": [STR, ARR_INT] if kind == "allOf" else [ARR_INT, STR]},
+                    {"l": [1, 2]}, {"l": [1, 2]}) if kind != "allOf" else None
+        if cat == "none":
             return None
         d, v, doc = item_witness(cat)
         if kind == "allOf":
@@ -773,7 +862,7 @@ def witness(kind, cat):
         other = STR if cat not in ("string",) else INT
         if cat == "any":
             return {"k": kind, "fields": [d]}, v, doc
-        return {"k": kind, "fields": [d, other]}, v, doc
+        return {"k": kind, "fields": [other, d]}, v, doc
     return None
 
 
